@@ -74,6 +74,7 @@ type TV struct {
 // FnCtx: everything for one top-level function under verification.
 type FnCtx struct {
 	eng      *Engine
+	compLabel map[string]string // heap component -> obligation label (field names)
 	top      *ssa.Function
 	key      string
 	contract *FuncContract
@@ -352,6 +353,11 @@ func (fc *FnCtx) fieldComp(structT types.Type, field int) (key string, fsort str
 	fsort = fc.P.SortOf(st.Field(field).Type())
 	key = fmt.Sprintf("H:%s:%d", ss, field)
 	fc.compDecl(key, fmt.Sprintf("(Array Int %s)", fsort))
+	if fc.compLabel == nil {
+		fc.compLabel = map[string]string{}
+	}
+	// obligation names use the field's name, not its index (adding a field must not rename obligations)
+	fc.compLabel[key] = mangle(fmt.Sprintf("H:%s:%s", ss, st.Field(field).Name()))
 	return
 }
 
@@ -965,6 +971,10 @@ func (fr *frame) resolveName(name string, b *ssa.BasicBlock, atEnd bool, st *Sta
 			switch in := blk.Instrs[i].(type) {
 			case *ssa.DebugRef:
 				if id, ok := in.Expr.(*ast.Ident); ok && id.Name == name {
+					// the selector identifier of x.f is an *ast.Ident too: a field is not a variable of that name
+					if v, isVar := in.Object().(*types.Var); isVar && v.IsField() {
+						continue
+					}
 					if in.IsAddr {
 						if a, ok := fr.addrs[in.X]; ok {
 							t, T := fc.load(st, a)
@@ -1009,6 +1019,9 @@ func (fr *frame) resolveName(name string, b *ssa.BasicBlock, atEnd bool, st *Sta
 						continue
 					}
 					if id, ok := dr.Expr.(*ast.Ident); !ok || id.Name != name {
+						continue
+					}
+					if v, isVar := dr.Object().(*types.Var); isVar && v.IsField() {
 						continue
 					}
 					if c, isC := dr.X.(*ssa.Const); isC && c.Value == nil {
@@ -1066,6 +1079,9 @@ func (fr *frame) resolveName(name string, b *ssa.BasicBlock, atEnd bool, st *Sta
 		for _, blk := range fr.fn.Blocks {
 			for _, in := range blk.Instrs {
 				if dr, ok := in.(*ssa.DebugRef); ok {
+					if v, isVar := dr.Object().(*types.Var); isVar && v.IsField() {
+						continue
+					}
 					if id, ok := dr.Expr.(*ast.Ident); ok && id.Name == name {
 						T := dr.X.Type()
 						if dr.IsAddr {
